@@ -214,9 +214,7 @@ def applyFinish (d : Durable) (c : Cache) (hs : Hard) (persistHard : Bool) : Exc
 
 /-- `saveOp.apply`: the batch is returned as the new durable state -/
 def saveApply (d : Durable) (c : Cache) (r : SaveReq) : Except Err (Durable × Cache) :=
-  let hs := match r.hs with
-    | some h => h
-    | none => c.hard
+  let hs := r.hs.getD c.hard
   match r.snap with
   | none =>
     let (d, c) := applyEnts d c r.ents
@@ -260,13 +258,16 @@ def PStore.save (p : PStore) (hs : Option Hard) (snap : Option Snap) (ents : Lis
       let ents := ents.filter (fun e => ¬ e.index ≤ s.index)
       p.flush (fun d c => saveApply d c { hs := hs, snap := some s, ents := ents })
 
+/-- `view.meta.AppliedIndex` (zero when no meta is persisted) -/
+def Durable.metaApplied (d : Durable) : Nat :=
+  match d.logMeta with
+  | some m => m.applied
+  | none => 0
+
 /-- `pebbleStore.ReplaceSnapshot` -/
 def PStore.replaceSnapshot (p : PStore) (s : Snap) : Except Err PStore :=
   if viewErr p.d then .error .other else
-  let applied := match p.d.logMeta with
-    | some m => m.applied
-    | none => 0
-  if s.index = 0 ∨ s.index ≠ applied then .error .other
+  if s.index = 0 ∨ s.index ≠ p.d.metaApplied then .error .other
   else if s.term = 0 then .error .other
   else p.flush (fun d c => saveApply d c { hs := none, snap := some s, ents := [], allowReplace := true })
 
@@ -299,6 +300,12 @@ def Durable.termGo (d : Durable) (i : Nat) : Except Err Nat :=
 def Durable.entriesGo (d : Durable) (lo hi max : Nat) : List Entry :=
   limitSize max (d.entries.filter (fun e => (lo = 0 ∨ lo ≤ e.index) ∧ (hi = 0 ∨ e.index < hi)))
 
+/-- `pebbleStore.Snapshot`: the manifest + its chunk files, or the empty snapshot -/
+def Durable.snapshotGo (d : Durable) : Snap :=
+  match d.manifest with
+  | some man => man
+  | none => Snap.none
+
 def allOk : List (Except Err Nat) → Option (List Nat)
   | [] => some []
   | .ok x :: r => (allOk r).map (x :: ·)
@@ -317,9 +324,7 @@ def PStore.reads (p : PStore) : PStore × Reads :=
     let (lo, hi) := termWindow m.first m.last
     (p, { init := some (d.hard, m.conf, m.applied, d.confApplied)
           first := some m.first, last := some m.last
-          snap := some (match d.manifest with
-                        | some man => man
-                        | none => Snap.none)
+          snap := some d.snapshotGo
           ents := some (d.entriesGo 0 maxU64 0)
           termLo := lo
           terms := allOk ((List.range (hi + 1 - lo)).map (fun k => d.termGo (lo + k))) })
